@@ -57,7 +57,9 @@ def gen_case(rng, max_n):
             return rng.choice(THRESH)           # decimal thresholds, passed as decimals
         return rng.choice(GRID)
     t1, t2 = sorted([thr(), thr()])
-    return {"method": meth, "n": n, "kind": kind, "matrix": m, "t1": t1, "t2": t2}
+    return {"method": meth, "n": n, "kind": kind, "matrix": m, "t1": t1, "t2": t2,
+            "container": rng.choice(["list", "list", "numpy"]),
+            "names": rng.choice(["plain", "odd"]), "int_thr": rng.random() < 0.3}
 
 
 def exhaustive_cases(n_max=4, vals=(F(0), F(1, 2), F(1)), thrs=(F(0), F(3, 10), F(1, 2), F(1))):
@@ -81,11 +83,28 @@ def run_impl(case):
     fm = [[float(x) for x in r] for r in case["matrix"]]
     meth = case["method"]
     n = case["n"]
-    taxa = ["t%d" % i for i in range(n)]
-    out = clustering.flat_cluster(meth, float(case["t1"]), copy.deepcopy(fm))
-    rev = clustering.flat_cluster(meth, float(case["t1"]), copy.deepcopy(fm), revert=True)
-    tx = clustering.flat_cluster(meth, float(case["t1"]), copy.deepcopy(fm), taxa)
-    out2 = clustering.flat_cluster(meth, float(case["t2"]), copy.deepcopy(fm))
+    if case.get("names") == "odd":      # names with blanks, case variants, digits, non-ASCII letters
+        pool = ["Old High German", "a", "A", "t 1", "t_1", "Éwé", "10", "x.y", "Ж", "b'c", "0", "T1", "t1 ", "n/a"]
+        taxa = pool[:n] if n <= len(pool) else pool + ["t%d" % i for i in range(n - len(pool))]
+    else:
+        taxa = ["t%d" % i for i in range(n)]
+
+    def mk():
+        if case.get("container") == "numpy":
+            import numpy as np
+            return np.array(fm, dtype=float)
+        return copy.deepcopy(fm)
+
+    def thr(t):     # thresholds that are whole numbers are sometimes passed as int (0, 1, 2)
+        return int(t) if case.get("int_thr") and t.denominator == 1 else float(t)
+    out = clustering.flat_cluster(meth, thr(case["t1"]), mk())
+    rev = clustering.flat_cluster(meth, thr(case["t1"]), mk(), revert=True)
+    tx = clustering.flat_cluster(meth, thr(case["t1"]), mk(), taxa)
+    out2 = clustering.flat_cluster(meth, thr(case["t2"]), mk())
+    if meth == "upgma":                # the dedicated entry point must agree with flat_cluster('upgma')
+        fu = clustering.flat_upgma(thr(case["t1"]), mk())
+        if {int(k): [int(i) for i in v] for k, v in fu.items()} != {int(k): [int(i) for i in v] for k, v in out.items()}:
+            out = fu
     res = {
         "out": [(int(k), [int(i) for i in v]) for k, v in out.items()],
         "rev": [(int(i), int(k)) for i, k in rev.items()],
@@ -171,6 +190,7 @@ def shrink(case):
 
 def classify(case, res):
     return ["method=" + case["method"], "n=%d" % case["n"], "kind=" + case["kind"],
+            "container=" + case.get("container", "list"), "names=" + case.get("names", "plain"),
             "clusters_t1=%d" % len(res["out"]),
             "thr_is_entry" if any(case["t1"] == x for r in case["matrix"] for x in r) else "thr_not_entry"]
 
